@@ -308,8 +308,10 @@ static int utls_server(struct xcm_socket *s, const char *local_addr)
     char ux_addr[XCM_ADDR_MAX+1];
     map_tls_to_ux(actual_addr, ux_addr, sizeof(ux_addr));
 
+    /* on failure, the UX sub-socket is gone, but the TLS sub-socket
+       is bound and listening, and must be closed */
     if (bind_sub_server(&us->ux_socket, ux_addr) <  0)
-	goto err;
+	goto err_close_both;
 
     LOG_SERVER_CREATED(s);
 
@@ -319,7 +321,6 @@ err_close_both:
     xcm_tp_socket_close(us->tls_socket);
 err_close_ux:
     xcm_tp_socket_close(us->ux_socket);
-err:
     deinit(s);
     return -1;
 }
